@@ -54,6 +54,14 @@ func guarded(fn func()) (panicked any, alloc uint64) {
 }
 
 // sitedPanic is a recovered panic with the innermost gohbase function.
+// strandedErr: the receive step returned, but this many live calls of the
+// multi-request it answered got neither a result nor an error.
+type strandedErr int
+
+func (s strandedErr) Error() string {
+	return fmt.Sprintf("%d call(s) of the multi-request were left without result or error", int(s))
+}
+
 type sitedPanic struct {
 	p    any
 	site string
@@ -402,6 +410,11 @@ func runC11(c *fw.Ctx) {
 				c.Violate(fmt.Sprintf("dec-%d", i), "reader-blocked:"+target,
 					"the connection reader's receive step did not return within 2s (blocked delivering a result): "+op, replay)
 			}
+			if se, ok := decErr.(strandedErr); ok {
+				c.Count("multi_responses_leaving_calls_out", 1)
+				c.Violate(fmt.Sprintf("dec-%d", i), "stranded:multi-call-without-result",
+					fmt.Sprintf("target=%s op=%s shape=%s: %v", target, op, shape, se), replay)
+			}
 		}
 		c.Eval(target+"|"+op+"|"+shape, !strings.HasPrefix(op, "valid"))
 		c.Count("target_"+target, 1)
@@ -458,8 +471,9 @@ func c11RegionInfo(r *rand.Rand) (op, shape string, inLen int, pnk any, alloc ui
 		op = "random-value"
 	case 6:
 		// hostile row name (region name) shapes reaching the cache comparator
+		// (the last two are shaped like the search keys of the lookups that follow)
 		name = [][]byte{[]byte(""), []byte("t"), []byte("t,"), []byte(","), []byte(",,"), []byte("t,,"), []byte("nocomma"),
-			[]byte("t,x"), rbytes(r, r.Intn(6))}[r.Intn(9)]
+			[]byte("t,x"), rbytes(r, r.Intn(6)), []byte(tbl + ",k,:"), []byte("t,z,:")}[r.Intn(11)]
 		op = fmt.Sprintf("row-name-%q", name)
 		if len(op) > 24 {
 			op = "row-name-random"
@@ -758,6 +772,7 @@ func c11Frame(r *rand.Rand) (target, op, shape string, inLen int, pnk any, alloc
 	// at most one result per call may have been delivered (a second one would
 	// have blocked above); collect what arrived
 	if err == nil && pnk == nil && !hung {
+		stranded := 0
 		for _, cl := range calls {
 			select {
 			case res := <-cl.ResultChan():
@@ -765,7 +780,16 @@ func c11Frame(r *rand.Rand) (target, op, shape string, inLen int, pnk any, alloc
 					err = res.Error
 				}
 			default:
+				if cl.Context().Err() == nil {
+					stranded++
+				}
 			}
+		}
+		// the response was taken for this multi-request (call id intact, frame
+		// not cut): every live call must have got a result or an error, whatever
+		// the response left out
+		if vm != nil && stranded > 0 && !strings.Contains(op, "call-id") && !strings.Contains(op, "/frame") && op != "random-frame-body" {
+			err = strandedErr(stranded)
 		}
 	}
 	return
@@ -906,6 +930,21 @@ func c11MultiResponse(r *rand.Rand) (vm *region.VerifMulti, calls []hrpc.Call, m
 	case 11:
 		resp.RegionActionResult = resp.RegionActionResult[:len(resp.RegionActionResult)-1]
 		op = "missing-region-result"
+	case 13, 14:
+		// one action's entry is left out (only entries without cells, so that the
+		// cellblock stays consistent with what is listed)
+		for _, rar := range resp.RegionActionResult {
+			for k, roe := range rar.ResultOrException {
+				if roe.GetResult().GetAssociatedCellCount() == 0 {
+					rar.ResultOrException = append(rar.ResultOrException[:k:k], rar.ResultOrException[k+1:]...)
+					op = "missing-action-result"
+					break
+				}
+			}
+			if op == "missing-action-result" {
+				break
+			}
+		}
 	case 12:
 		if len(resp.RegionActionResult) > 1 && c11HungSeen < 3 {
 			// region exception for region 0 and, under region 1, a result for one of region 0's calls
